@@ -15,6 +15,7 @@ alarm here.
 
 from __future__ import annotations
 
+import hashlib
 import json
 import os
 import signal
@@ -76,7 +77,7 @@ def _zygote_loop(req_r: int, res_w: int) -> None:
                 # dump_traceback_later watchdog was armed deadlocks on re-arming
                 signal.alarm(60)
                 spec = json.loads(raw)
-                out = {"ok": True, "result": world.solitary(spec)}
+                out = {"ok": True, "result": world.solitary(spec), "echo": hashlib.sha256(raw).hexdigest()[:16]}
             except BaseException as exc:  # noqa: BLE001
                 out = {"ok": False, "error": "".join(traceback.format_exception(exc))[-2000:]}
             try:
@@ -145,6 +146,8 @@ def ask(spec: Dict[str, Any]) -> Any:
             raise GoldenError("golden zygote died") from exc
     if not res["ok"]:
         raise GoldenError("golden run failed in the harness:\n" + res["error"])
+    if res.get("echo") != hashlib.sha256(key.encode()).hexdigest()[:16]:
+        raise GoldenError("golden response does not belong to the request (pipe out of step)")
     if len(_CACHE) > 100_000:
         _CACHE.clear()
     _CACHE[key] = res["result"]
